@@ -111,6 +111,12 @@ def main(argv):
     for name in names:
         res = run_one(name, tier, demo)
         results.append(res)
+        with open(os.path.join(SEEDED, name, 'result.json'), 'w') as f:
+            json.dump(dict(res, what_was_run=(
+                'patch applied to a scratch copy of /repo/lib/python on '
+                '/dev/shm; demo run without and with the change; '
+                './vcheck %s %s with VERIF_REPO pointing at the copy' % (
+                    res['property'], tier))), f, indent=1)
         print('%-28s %-6s %-8s %s %s' % (
             res['id'], res['property'], res['status'],
             ', '.join(res.get('signatures', []))[:150],
